@@ -31,6 +31,26 @@ def depth_tuple(ctx):
         return None
 
 
+def stack_shape(stack):
+    """Side-effect free abstraction of a stack: one tag per entry (never forces a lazy list)."""
+    import types as _t
+
+    out = ""
+    try:
+        for v in stack:
+            if isinstance(v, str):
+                out += "s"
+            elif isinstance(v, list) or type(v).__name__ == "LazyList":
+                out += "L"
+            elif isinstance(v, _t.FunctionType):
+                out += "f"
+            else:
+                out += "n"
+    except Exception:  # noqa
+        return "?"
+    return out
+
+
 TOOL = 3  # a free sys.monitoring tool id
 _mon = {"on": False}
 
@@ -41,6 +61,10 @@ def _line_cb(code, line):
         return sys.monitoring.DISABLE
     if line in st["boundaries"]:
         st["checks"] += 1
+        if len(st["shapes"]) < 4000:
+            sh = stack_shape(st["ns"].get("stack"))
+            if not st["shapes"] or st["shapes"][-1] != sh:
+                st["shapes"].append(sh)
         d = depth_tuple(st["ctx"])
         if d != st["initial"] and st["first_bad"] is None:
             st["first_bad"] = {"python_line": line, "depths": d, "initial": st["initial"],
@@ -68,7 +92,7 @@ def _arm_line_monitor(source, ns):
         _mon["on"] = True
     PROBE["line_state"] = {
         "code": code, "ctx": ns["ctx"], "initial": depth_tuple(ns["ctx"]),
-        "boundaries": {st.lineno for st in tree.body}, "checks": 0, "first_bad": None,
+        "boundaries": {st.lineno for st in tree.body}, "checks": 0, "first_bad": None, "shapes": [], "ns": ns,
         "lines": source.split("\n"),
     }
     sys.monitoring.set_local_events(TOOL, code, sys.monitoring.events.LINE)
@@ -197,6 +221,7 @@ def run_impl(text, inputs=(), flags="", online=False, timeout=10, line_monitor=F
     st = PROBE.get("line_state")
     out["line_checks"] = st["checks"] if st else 0
     out["line_first_bad"] = st["first_bad"] if st else None
+    out["shapes"] = st["shapes"] if st else None
     PROBE["line_state"] = None
     PROBE["reads"] = None
     return out
